@@ -41,6 +41,7 @@ class RefSaslServer(DumbPeer):
         self.guid = guid
         self.external_needs_data = external_needs_data
         self.messy_keyring = False
+        self.cookie_context = b'org_sim_refserver'
         self.state = 'auth'
         self.mech = None
         self.first = True
@@ -135,7 +136,7 @@ class RefSaslServer(DumbPeer):
                 if user != self.user or self.keyring is None:
                     return self.reject()
                 self.cookie = hexs(self.urandom(24))
-                ctx = b'org_sim_refserver'
+                ctx = self.cookie_context
                 with open(os.path.join(self.keyring, ctx.decode()), 'wb') as f:
                     # a keyring file as found in the wild: other cookies, a blank line and a
                     # truncated line before the entry the challenge refers to
